@@ -750,6 +750,18 @@ func (s *Sim) build(a *Action, bs *BState) world.Req {
 		}
 		rq.Path = w.P("/logout")
 		sep := "?"
+		if a.opt("override") != "" {
+			// a request in another method that names the configured one the way method-override conventions
+			// do (hidden form field, query parameter, header): the method of a request is its method
+			cm := s.Cfg.LogoutMethod
+			if cm == "" {
+				cm = "DELETE"
+			}
+			rq.Path += sep + "_method=" + cm
+			sep = "&"
+			f["_method"] = cm
+			rq.Hdr = map[string]string{"X-HTTP-Method-Override": cm, "X-Method-Override": cm}
+		}
 		for _, k := range []string{"redir", "_lang", "_drop"} {
 			if v := a.opt(k); v != "" {
 				rq.Path += sep + k + "=" + url.QueryEscape(v)
@@ -918,6 +930,14 @@ func (s *Sim) build(a *Action, bs *BState) world.Req {
 		for _, kv := range strings.Split(a.opt("extra"), "&") {
 			if i := strings.IndexByte(kv, '='); i > 0 {
 				f[kv[:i]] = kv[i+1:]
+			}
+		}
+	}
+	if h := a.opt("hdr"); h != "" { // "Name: value" pairs separated by '|'
+		rq.Hdr = map[string]string{}
+		for _, kv := range strings.Split(h, "|") {
+			if i := strings.Index(kv, ": "); i > 0 {
+				rq.Hdr[kv[:i]] = kv[i+2:]
 			}
 		}
 	}
